@@ -90,6 +90,14 @@ def eval_fn(ctx, chk, q, args, kwargs=None):
     outs = ctx.explore(lambda: ctx.ev.call(ctx.fn(q), list(args), dict(kwargs or {})), chk)
     rets = returns(outs)
     int_products(ctx, chk, q, outs)
+    # scipy's loc/scale form is NaN for scale == 0: with the standard error as scale, a class rate of exactly 0 or 1 (a perfectly legitimate
+    # matrix) gets a NaN interval although the rate is defined - the shipped formula is centre -+ z * std, which is [p, p] there
+    for o_ in outs:
+        for e_ in o_.events:
+            if e_["kind"] == "norm_scale" and q.endswith(("binomial_ci",)) and ("norm_scale", q) not in _INT_SEEN.setdefault(id(chk), set()):
+                _INT_SEEN[id(chk)].add(("norm_scale", q))
+                chk.violation("R04.4", q, "scale-zero", "scipy.stats.norm.%s(..., scale=%s): NaN whenever the scale is 0" % (e_["fn"], show(e_["scale"], 80)),
+                              "NaN exactly when the rate is NaN: a rate of 0 or 1 has standard error 0 and the interval [p, p]", ctx.where(q))
     # argument validation that refuses only alphas outside the documented open interval (0, 1) is not a path of the property
     rs = [o for o in raises(outs) if not (o.pc and alpha_region_meets_unit(o.pc) is False)]
     if len(rets) != 1 or rs:
